@@ -118,8 +118,10 @@ def r02_1(ctx, prog, crate):
                 for bi, t, base in __import__("lib.tables", fromlist=["x"]).discr_switches(b):
                     if base == c.dest["l"] and not c.dest["proj"]:
                         arms = {int(a[0]): a[1] for a in t["arms"]}
-                        err_t = arms.get(1)
-                        ok_t = arms.get(0)
+                        from .common import slots_result_variants as _srv2
+                        sv2 = _srv2(prog, crate)
+                        err_t = arms.get(sv2["inputs"][1] if sv2 else 1, t["otherwise"] if len(arms) == 1 and (sv2["inputs"][1] if sv2 else 1) not in arms else None)
+                        ok_t = arms.get(sv2["slots"][1] if sv2 else 0, t["otherwise"] if len(arms) == 1 and (sv2["slots"][1] if sv2 else 0) not in arms else None)
                         ok = err_t is not None and b.dominates(err_t, p.start.bb) and (ok_t is None or not b.dominates(ok_t, p.start.bb))
             ctx.check(ok, "R02.1", [b.path, p.label, "black_box_drop-only-on-inputs-only-arm"],
                       "black_box_drop(output) is used in a timed loop that is not the Err (outputs need no drop) arm of slots()", p.start.line())
@@ -137,7 +139,9 @@ def r02_1(ctx, prog, crate):
                         for s in sb.blocks[x]["stmts"]:
                             if s["k"] == "assign" and s["p"]["l"] == 0 and s["rv"]["k"] == "agg":
                                 res[val] = s["rv"].get("variant")
-            ctx.check(res == {True: "Err", False: "Ok"}, "R02.1", ["DeferStore::slots", "Err-iff-ONLY_INPUTS"],
+            from .common import slots_result_variants as _srv
+            sv_ = _srv(prog, crate)
+            ctx.check(bool(sv_) and res == {True: sv_["inputs"][0], False: sv_["slots"][0]}, "R02.1", ["DeferStore::slots", "Err-iff-ONLY_INPUTS"],
                       "slots() returns %s; Err (inputs-only loop) must be returned exactly when ONLY_INPUTS" % res, sb.where(0))
     return rec
 
